@@ -1906,7 +1906,7 @@ class SpaceUpdater(SharedSpaceOperations):
             name=None,
             defined_only=False
     ):
-        if parent.has_ascendant(source):
+        if parent is source or parent.has_ascendant(source):
             raise ValueError("Cannot copy to child")
 
         if parent.model is not self.model:
